@@ -63,4 +63,14 @@ def fdiv (a b : UInt64) : UInt64 :=
 def ofDec (mant : Nat) (e10 : Int) : UInt64 :=
   if e10 ≥ 0 then rne (mant * 10 ^ e10.toNat) 1 else rne mant (10 ^ (-e10).toNat)
 
+/-- `ofDec` with the two trivially decided ranges short-circuited, so that literals with
+    astronomically large exponents can be evaluated: with `mant ≥ 1`, an exponent above 400
+    overflows to infinity, and `mant < 10^D` with `D + e10 < -400` underflows to zero
+    (`D` is an upper bound on the number of decimal digits of `mant`). -/
+def ofDecC (mant : Nat) (e10 : Int) : UInt64 :=
+  if mant = 0 then 0
+  else if e10 > 400 then 0x7FF0000000000000
+  else if e10 + ((Nat.log2 mant / 3 + 1 : Nat) : Int) < -400 then 0
+  else ofDec mant e10
+
 end Edn.Spec
